@@ -116,6 +116,7 @@ PROPERTY_RULES: Dict[str, List[Scoped]] = {
         _r("MODEL-TABLE", ("model.reconciliation:rec/",)), _r("EVENT-TABLE"),
         _r("RMQ-WINDOWS"), _r("EULER-INDEX"),
         _r("HASH-CANONICAL"),
+        _r("PRIVATE-INDEX"),
     ],
     "C08": [
         _r("TREE-WRITE-ARGS"), _r("FIELDS-SERIALISED"), _r("DICT-KEYS"), _r("FEATURE-COPY"),
@@ -192,11 +193,13 @@ PROPERTY_RULES: Dict[str, List[Scoped]] = {
         _r("ENTRY-OWNS-TAGS"), _r("SOLVER-STATELESS", S_DP),
         _r("ENTRY-CTOR"),
         _r("UPDATE-ALL-CANDIDATES"),
+        _r("ITERABLE-ONCE", S_DP),
     ],
     "C17": [
         _r("DERIVED-QUERIES"), _r("EULER-INDEX"), _r("RMQ-WINDOWS"),
         _r("SOLVER-STATELESS", ("utils.trees:LowestCommonAncestor", "utils.trees:_euler", "utils.range_min_query:")),
         _r("TREE-ITER-EXPLICIT", S_TREES),
+        _r("PRIVATE-INDEX"),
     ],
     "C18": [
         _r("BIT-ORDER"), _r("SEGMENT-MACHINE"), _r("SENTINEL", S_SUBSEQ),
@@ -218,6 +221,7 @@ PROPERTY_RULES: Dict[str, List[Scoped]] = {
         _r("ITERATOR-REUSE", S_TREES), _r("COPY-FAITHFUL", ("utils.trees:", "utils.disjoint_set:")),
         _r("ENUM-NO-TRUNCATION", ("utils.trees:all_trees", "utils.disjoint_set:")), _r("NAME-AS-KEY"),
         _r("TREE-ITER-EXPLICIT", S_TREES),
+        _r("ITERABLE-ONCE", S_TREES),
     ],
 }
 
@@ -662,7 +666,7 @@ _DECIDED_ROUND5 = {
     'C16': ['update examines every candidate it is offered, never a pre-selected or truncated batch (UPDATE-ALL-CANDIDATES)'],
     'C17': ['no direct iteration / len() of a tree in the ancestry structures (TREE-ITER-EXPLICIT)'],
     'C19': ['vertices are treated as opaque hashable values: never sorted or compared with < (NODE-OPAQUE)'],
-    'C20': ['no direct iteration of a tree (TREE-ITER-EXPLICIT); deep copies of tree nodes use the detaching `.copy()` (COPY-FAITHFUL)'],
+    'C20': ['no direct iteration of a tree (TREE-ITER-EXPLICIT); deep copies of tree nodes use the detaching `.copy()` (COPY-FAITHFUL); a parameter annotated Iterable is walked once or materialised first (ITERABLE-ONCE)'],
 }
 for _k5, _v5 in _DECIDED_ROUND5.items():
     _DECIDED_ROUND4.setdefault(_k5, [])
